@@ -20,7 +20,7 @@ import sys
 from collections import Counter, OrderedDict
 
 REPO = os.environ.get("C04_REPO", "/repo")
-OUT = os.path.join(os.path.dirname(os.path.dirname(os.path.abspath(__file__))), "coq", "C04", "Gen.v")
+OUT = os.environ.get("C04_OUT") or os.path.join(os.path.dirname(os.path.dirname(os.path.abspath(__file__))), "coq", "C04", "Gen.v")
 
 WIDTH = {"u8": 1, "i8": 1, "u16": 2, "i16": 2, "F2Dot14": 2, "FWord": 2, "UfWord": 2, "GlyphId16": 2, "NameId": 2,
          "Offset16": 2, "Uint24": 3, "Int24": 3, "Offset24": 3, "u32": 4, "i32": 4, "Fixed": 4, "Tag": 4,
